@@ -555,7 +555,10 @@ def filter_kwargs(sc, m):
 def step_budget_for(sc, m):
     n_rows = len(sc['imu']['stamps'])
     n_ep = sum(len(s['stamps']) for s in sc['sensors'])
-    return 400 * (n_rows + n_ep + 2)
+    # generous on purpose (today's code needs < 100 lines per row/epoch): a legitimate
+    # refactoring may move vectorised work into Python helpers of pyins.filters, while a
+    # loop that stopped advancing exceeds ANY finite budget
+    return 2000 * (n_rows + n_ep + 2)
 
 
 class RunOutcome:
